@@ -279,7 +279,7 @@ def r4_open(report, repo):
   rule = 'C15-R4'
   report.rule(rule, 'T-DOM: open_stream returns a stream only if '
               'ensure_opened() is true; ensure_opened refuses WRTE; '
-              '_set_or_check_remote_id opens only from PENDING and rejects a '
+              'an OKAY opens only from PENDING and rejects a '
               'changed id')
   f = repo.func(AP, 'AdbConnection.open_stream')
   g = lib.cfg(f)
@@ -311,11 +311,22 @@ def r4_open(report, repo):
   report.check(ok, rule, e.qualname, 'first-message', e.node,
                'the first message must be OKAY or CLSE (WRTE refused); result '
                'is is_open()')
-  s = repo.func(AP, ST + '._set_or_check_remote_id')
-  rid = lib.param_names(s.node)[1]
+  # the set-or-check logic is read where it takes effect: in enqueue_message
+  # on the OKAY branch (a private helper holding it is inlined by the loader)
+  s = repo.func(AP, ST + '.enqueue_message')
+  emsg = lib.param_names(s.node)[1]
+  rid = emsg + '.arg0'
 
   def classify(expr, steps):
     d = dotted(expr)
+    if isinstance(expr, ast.Compare) and len(expr.ops) == 1 and \
+        d is None and dotted(expr.left) == emsg + '.command' and isinstance(
+            expr.ops[0], ast.Eq):
+      c_ = core.const_str(expr.comparators[0])
+      if c_ == 'OKAY':
+        return 'is_okay'
+      if c_ in ('WRTE', 'CLSE'):
+        return False  # the table below is about the OKAY branch only
     if d == 'self.remote_id':
       return 'have'
     if isinstance(expr, ast.Compare) and len(expr.ops) == 1:
@@ -330,6 +341,9 @@ def r4_open(report, repo):
     sets = [n for n, _ in p.steps if n.kind == 'stmt' and isinstance(
         n.ast, ast.Assign) and dotted(n.ast.targets[0]) in ('self.remote_id',
                                                             'self.closed_state')]
+    if not v['is_okay']:
+      return 'other-row: remote id / state touched for a non-OKAY message' \
+          if sets else None
     if not v['have']:
       if not v['pending']:
         return None if p.end == 'raise' else \
@@ -355,8 +369,8 @@ def r4_open(report, repo):
       return 'known-id-row: the same id must be accepted'
     return None
 
-  lib.decision_table(report, rule, s, ['have', 'pending', 'changed'], classify,
-                     spec)
+  lib.decision_table(report, rule, s, ['is_okay', 'have', 'pending', 'changed'],
+                     classify, spec)
 
 
 def r5_close(report, repo):
